@@ -137,3 +137,10 @@ impl ArcConnector {
         requires ctx.recorded() == self.name_spec(),
     { unimplemented!() }
 }
+
+impl Clone for ContextRef {
+    /// Arc::clone of the connection handle: same connection (ghost state is per handle: what one handle records later is
+    /// not visible through a clone taken earlier -- sound for "recorded BEFORE delegating" obligations)
+    #[verifier::external_body]
+    fn clone(&self) -> (r: ContextRef) ensures r.recorded() == self.recorded(), r.props_spec() == self.props_spec() { unimplemented!() }
+}
